@@ -354,7 +354,13 @@ func c16TextCSV(c statCase) (v vcase.Verdict) {
 					return
 				}
 				// a row's shared scale shows every non-zero value with at least three significant digits
-				if val != 0 {
+				// (promised down to 1e-8 of the smallest prefix: 1e-17 for decimal units, 1e-8 for
+				// binary ones, which have no prefixes below 1; see C10)
+				minMag := 1e-17
+				if binary {
+					minMag = 1e-8
+				}
+				if math.Abs(val) >= minMag {
 					digits := strings.TrimLeft(strings.NewReplacer("-", "", ".", "").Replace(scaledRe.FindStringSubmatch(m[1])[1]+scaledRe.FindStringSubmatch(m[1])[2]+scaledRe.FindStringSubmatch(m[1])[3]), "0")
 					if len(digits) < 3 {
 						fail("table %d row %q column %d: %q shows fewer than three significant digits of %v", ti, label, col, m[1], val)
